@@ -24,6 +24,7 @@ PROPERTY = {
         "Euler only (the ring buffer advances once per vector-field evaluation)",
     ],
 }
+PROPERTY["rule"] += " A third of the cases use solver='heun' (reference: predictor stage of step k reads source(k-D), corrector stage source(k+1-D)). Arm alg_chain: the delayed source is an algebraic output driven by an edge from an algebraic variable of another node, declared before or after it, with delayed and undelayed targets of one node type."
 
 
 def add_delays(draw, spec, dt):
